@@ -281,7 +281,8 @@ class Mixed:
             # a coarse clock may give a QUIC answer the timestamp of the datagram it answers (opposite direction)
             same_tick = (self.owners and self.owners[-1] == i and self.kinds[i][0] == "quic" and idx[i] > 0 and
                          self.quic[self.kinds[i][1]]["conn"].dirs[idx[i]] != self.quic[self.kinds[i][1]]["conn"].dirs[idx[i] - 1]
-                         and rng.random() < 0.1)
+                         and not getattr(self, "_tick_chain", False) and rng.random() < 0.1)
+            self._tick_chain = bool(same_tick)         # never three datagrams on one tick: two of them would share a direction
             t += 0 if same_tick else rng.randrange(1, 30_000)
             self.items.append(("pkt", t, per[i][idx[i]]))
             self.owners.append(i)
